@@ -19,6 +19,9 @@ from mc.lattice import Emb, chunked
 ABSENT = "<absent>"
 VALS = (ABSENT, "x", "y", ["x"])
 VALS_NULL = (ABSENT, "x", ["x"], None, 0)  # JSON null / falsy values are values, not absence
+# distinct JSON values that PRINT alike (str / repr / json text): 1 vs "1", null vs "None"/"null", a list vs the text spelling it,
+# true vs 1 vs 1.0 are deliberately absent (Python's own == identifies them; the statement speaks of values)
+VALS_PRINT = (ABSENT, 1, "1", None, "None", "null", ["x"], "['x']", '["x"]')
 VALS_HASH = (ABSENT, -1, -2, [-1], [-2])  # distinct values whose CPython hashes coincide (hash(-1) == hash(-2))
 KEYLISTS = [("a",), ("b",), ("c",), ("a", "b"), ("b", "a"), ("a", "c"), ("c", "a"), ("b", "c"), ("c", "b"), ("a", "b", "c")]
 BOUNDS = {
@@ -244,6 +247,8 @@ def _space(ctx):
     merge += [t for k in range(1, 4) for t in itertools.product(shapes_null, repeat=k) if cj(t) not in seen]
     shapes_hash = [(a, b) for a in VALS_HASH for b in VALS_HASH]
     merge += [t for k in range(2, 4) for t in itertools.product(shapes_hash, repeat=k)]
+    shapes_print = [(a, b) for a in VALS_PRINT for b in (ABSENT, "x")] + [(ABSENT, a) for a in VALS_PRINT[1:]]
+    merge += [t for k in range(2, 4 if ctx.thorough else 3) for t in itertools.product(shapes_print, repeat=k)]
     cn = 5 if ctx.thorough else 4
     cel = [(g, d, v) for g in (0, 1) for d in (0, 1) for v in ("x", "y", ["x"])]
     chunk = [t for k in range(0, cn + 1) for t in itertools.product(cel, repeat=k)]
